@@ -245,7 +245,7 @@ def setTimer (ts : List (Nat × Int)) (k : Nat) : List (Nat × Int) :=
   if ts.any (·.1 = k) then ts.map (fun p => if p.1 = k then (k, 0) else p) else ts ++ [(k, 0)]
 
 def stStep (idx : Nat) (s : ScopeTime) : StEv → Res ScopeTime
-  | .start now => ⟨s, [.set idx (some 0) now], none⟩
+  | .start now => ⟨{ s with timers := [], stack := [] }, [.set idx (some 0) now], none⟩   -- a new run has no open scopes
   | .scopeStart now => ⟨s, [.set idx (some 0) now], none⟩
   | .scopeActivate k => ⟨{ s with timers := setTimer s.timers k, stack := s.stack ++ [k] }, [], none⟩
   | .scopeEnd k =>
